@@ -547,6 +547,10 @@ void
 		    new_len = alpha * *prev_len;
 		    new_mem = (void *) SUPERLU_MALLOC((size_t)new_len * lword);
 		}
+		if ( new_len <= *prev_len ) { /* nothing gained */
+		    SUPERLU_FREE (new_mem);
+		    return (NULL);
+		}
 	    }
 	    if ( type == LSUB || type == USUB ) {
 		copy_mem_int(len_to_copy, expanders[type].mem, new_mem);
@@ -589,6 +593,8 @@ void
 		    new_len = alpha * *prev_len;
 		    extra = (new_len - *prev_len) * lword;	    
 		}
+		/* alpha * prev_len may round down to prev_len: nothing gained */
+		if ( new_len <= *prev_len ) return (NULL);
 	    }
 
 	      /* Need to expand the memory: moving the content after the current MemType
